@@ -24,6 +24,10 @@ pub trait MovingAverageConstructor: Clone {
 //@extract src/core/moving_average.rs trait[MovingAverageConstructor]::ma_period
 	ensures r == self.period_s(),
 //@end
+	// `self.ma_type() == other.ma_type()`: same averaging kind (abstract here; the default body compares an associated `Type: Eq`)
+	spec fn similar_s(&self, other: &Self) -> bool;
+	fn is_similar_to(&self, other: &Self) -> (r: bool)
+		ensures r == self.similar_s(other);
 }
 
 // the default constructor type of the generic indicators
